@@ -205,3 +205,123 @@ Theorem C16_multigraph_dedup_restores_invariant :
           labels (mg m') = labels (mg m) /\ (forall i j : nat, In j (nb (mg m') i) <-> In j (nb (mg m) i)) /\ mtot m' = Totals.msum (labels (mg m)).
 Proof. exact MForcedInv.dm_remove_duplicates_restores. Qed.
 Print Assumptions C16_multigraph_dedup_restores_invariant.
+
+(* ---- weighted classes: a forced insertion stores the weight and adds it to the total; removeEdge subtracts (copies x stored weight);
+   removeDuplicateEdges subtracts the stored weight once per removed entry.  When all copies of a pair carry the same weight (the proviso of
+   the property; MWInv / UMWInv: total = sum over list entries of the stored weight) removeDuplicateEdges restores total = sum of stored weights,
+   and forced-then-deduplicated == unforced with equal totals.  Outside the proviso (copies disagreeing on the weight: the single slot keeps
+   the last weight while earlier copies stay charged at theirs) the total drifts - WForced.dw_forced_add_drift, closed examples there. ---- *)
+From BG Require Import WeightedModel Totals UTotals UMForcedInv WForced WForcedEq.
+Theorem C16_weighted_forced_add :
+  forall (m : mgraph) (s d : nat) (w : Z),
+        WInv true (mg m) ->
+        s < size (mg m) ->
+        d < size (mg m) ->
+        exists m' : mgraph,
+          dw_add_edge repaired m s d w true = (m', Done) /\
+          add_edge true repaired (mg m) s d w true = (mg m', Done) /\
+          WInv true (mg m') /\
+          size (mg m') = size (mg m) /\
+          mtot m' = (mtot m + w)%Z /\
+          enum (mg m') = (enum (mg m) + 1)%Z /\
+          (forall i j : nat, count j (nb (mg m') i) = count j (nb (mg m) i) + (if (i =? s) && (j =? d) then 1 else 0)) /\
+          has_edge (mg m') s d = Val true /\
+          (forall e : edge, lget e (labels (mg m')) = (if edge_eqb (s, d) e then w else lget e (labels (mg m)))) /\ dw_get_weight m' s d true = Val w.
+Proof. exact WForced.dw_forced_add_spec. Qed.
+Print Assumptions C16_weighted_forced_add.
+Theorem C16_weighted_remove_edge :
+  forall (m : mgraph) (s d : nat),
+        WInv true (mg m) ->
+        s < size (mg m) ->
+        d < size (mg m) ->
+        exists m' : mgraph,
+          dw_remove_edge m s d = (m', Done) /\
+          remove_edge (mg m) s d = (mg m', Done) /\
+          WInv true (mg m') /\
+          size (mg m') = size (mg m) /\
+          enum (mg m') = (enum (mg m) - Z.of_nat (count d (nb (mg m) s)))%Z /\
+          mtot m' = (mtot m - lget (s, d) (labels (mg m)) * Z.of_nat (count d (nb (mg m) s)))%Z /\
+          (forall i j : nat, count j (nb (mg m') i) = (if (i =? s) && (j =? d) then 0 else count j (nb (mg m) i))) /\
+          has_edge (mg m') s d = Val false /\ (forall e : edge, lget e (labels (mg m')) = (if edge_eqb (s, d) e then 0%Z else lget e (labels (mg m)))).
+Proof. exact WForced.dw_remove_edge_weak. Qed.
+Print Assumptions C16_weighted_remove_edge.
+Theorem C16_weighted_dedup_restores_invariant :
+  forall m : mgraph,
+        MWInv m ->
+        exists m' : mgraph,
+          dw_remove_duplicates m = (m', Done) /\
+          TInv m' /\
+          size (mg m') = size (mg m) /\ labels (mg m') = labels (mg m) /\ (forall i j : nat, In j (nb (mg m') i) <-> In j (nb (mg m) i)) /\ mtot m' = msum (labels (mg m)).
+Proof. exact WForced.dw_remove_duplicates_restores. Qed.
+Print Assumptions C16_weighted_dedup_restores_invariant.
+Theorem C16_undirected_weighted_forced_add :
+  forall (m : mgraph) (a b : nat) (w : Z),
+        WInvU true (mg m) ->
+        a < size (mg m) ->
+        b < size (mg m) ->
+        exists m' : mgraph,
+          uw_add_edge repaired m a b w true = (m', Done) /\
+          u_add_edge true repaired (mg m) a b w true = (mg m', Done) /\
+          WInvU true (mg m') /\
+          size (mg m') = size (mg m) /\
+          mtot m' = (mtot m + w)%Z /\
+          enum (mg m') = (enum (mg m) + 1)%Z /\
+          (forall i j : nat, count j (nb (mg m') i) = count j (nb (mg m) i) + (if hit a b i j then 1 else 0)) /\
+          u_has_edge (mg m') a b = Val true /\
+          (forall e : edge, lget e (labels (mg m')) = (if edge_eqb (ordered a b) e then w else lget e (labels (mg m)))) /\ uw_get_weight m' a b true = Val w.
+Proof. exact WForced.uw_forced_add_spec. Qed.
+Print Assumptions C16_undirected_weighted_forced_add.
+Theorem C16_undirected_weighted_remove_edge :
+  forall (m : mgraph) (a b : nat),
+        WInvU true (mg m) ->
+        a < size (mg m) ->
+        b < size (mg m) ->
+        exists m' : mgraph,
+          uw_remove_edge m a b = (m', Done) /\
+          u_remove_edge (mg m) a b = (mg m', Done) /\
+          WInvU true (mg m') /\
+          size (mg m') = size (mg m) /\
+          enum (mg m') = (enum (mg m) - Z.of_nat (count b (nb (mg m) a)))%Z /\
+          mtot m' = (mtot m - lget (ordered a b) (labels (mg m)) * Z.of_nat (count b (nb (mg m) a)))%Z /\
+          (forall i j : nat, count j (nb (mg m') i) = (if hit a b i j then 0 else count j (nb (mg m) i))) /\
+          u_has_edge (mg m') a b = Val false /\ (forall e : edge, lfind e (labels (mg m')) = (if edge_eqb (ordered a b) e then None else lfind e (labels (mg m)))).
+Proof. exact WForced.uw_remove_edge_weak. Qed.
+Print Assumptions C16_undirected_weighted_remove_edge.
+Theorem C16_undirected_weighted_dedup_restores_invariant :
+  forall m : mgraph,
+        UMWInv m ->
+        exists m' : mgraph,
+          uw_remove_duplicates m = (m', Done) /\
+          UTInv m' /\
+          size (mg m') = size (mg m) /\ labels (mg m') = labels (mg m) /\ (forall i j : nat, In j (nb (mg m') i) <-> In j (nb (mg m) i)) /\ mtot m' = msum (labels (mg m)).
+Proof. exact WForced.uw_remove_duplicates_restores. Qed.
+Print Assumptions C16_undirected_weighted_dedup_restores_invariant.
+Theorem C16_weighted_dedup_equals_unforced :
+  forall (n : nat) (ops : list wins),
+        in_rng n ops ->
+        same_labels Z.eqb ops ->
+        exists mf md mu : mgraph,
+          WeightedRefine.dw_run (dm_init n) (wadds true ops) = (mf, Done) /\
+          dw_remove_duplicates mf = (md, Done) /\
+          WeightedRefine.dw_run (dm_init n) (wadds false ops) = (mu, Done) /\ TInv md /\ TInv mu /\ graph_eqb Z.eqb (mg md) (mg mu) = Val true /\ mtot md = mtot mu.
+Proof. exact WForcedEq.dw_forced_dedup_equals_unforced. Qed.
+Print Assumptions C16_weighted_dedup_equals_unforced.
+Theorem C16_undirected_weighted_dedup_equals_unforced :
+  forall (n : nat) (ops : list wins),
+        in_rng n ops ->
+        same_labels Z.eqb (map norm ops) ->
+        exists mf md mu : mgraph,
+          UWeightedRefine.uw_run (dm_init n) (wadds true ops) = (mf, Done) /\
+          uw_remove_duplicates mf = (md, Done) /\
+          UWeightedRefine.uw_run (dm_init n) (wadds false ops) = (mu, Done) /\ UTInv md /\ UTInv mu /\ graph_eqb Z.eqb (mg md) (mg mu) = Val true /\ mtot md = mtot mu.
+Proof. exact WForcedEq.uw_forced_dedup_equals_unforced. Qed.
+Print Assumptions C16_undirected_weighted_dedup_equals_unforced.
+Theorem C16_undirected_multigraph_dedup_restores_invariant :
+  forall m : mgraph,
+        UMWInv m ->
+        exists m' : mgraph,
+          um_remove_duplicates m = (m', Done) /\
+          UTInv m' /\
+          size (mg m') = size (mg m) /\ labels (mg m') = labels (mg m) /\ (forall i j : nat, In j (nb (mg m') i) <-> In j (nb (mg m) i)) /\ mtot m' = msum (labels (mg m)).
+Proof. exact UMForcedInv.um_remove_duplicates_restores. Qed.
+Print Assumptions C16_undirected_multigraph_dedup_restores_invariant.
